@@ -1,12 +1,23 @@
-(* Tie: ArbitrationId definitions regenerated from /repo's source equal the hand model (model/ArbId.v) for all arguments. *)
-From CM Require Import lib.Prelude model.ArbId gen.Gen_arbid.
+(* Tie: ArbitrationId definitions regenerated from /repo's source equal the hand model (model/ArbId.v) for all arguments.
+   The proofs are semantic: after unfolding, masks and shifts are normalised to div/mod arithmetic (proofs/BitTactic.v),
+   every remaining condition is split and lia decides - so an equal mask-and-shift or arithmetic rewrite of the source
+   still proves, whatever its syntactic shape. *)
+From CM Require Import lib.Prelude model.ArbId proofs.BitLemmas proofs.BitTactic gen.Gen_arbid.
+
+Ltac unfold_gen :=
+  unfold gen_pgn, gen_j1939_destination, gen_set_pgn, gen_set_source, gen_set_priority, gen_to_compound_integer,
+    gen_from_compound_integer, gen_from_pgn, gen_post_init in *;
+  unfold gen_j1939_pdu_format, gen_j1939_source, gen_j1939_ps, gen_j1939_pf, gen_j1939_dp, gen_j1939_edp,
+    gen_j1939_priority in *.
+Ltac unfold_model :=
+  unfold from_compound_integer, from_pgn in *;
+  unfold mk_arbid, guard_ext, j1939_pdu_format, j1939_source, j1939_ps, j1939_pf, j1939_dp, j1939_edp, j1939_priority,
+    pgn, j1939_destination, set_pgn, set_source, set_priority, to_compound_integer,
+    compound_extended_mask, extended_id_mask, standard_id_mask in *.
+Ltac tie := intros; unfold_gen; unfold_model; cbn [negb fst snd]; tie_auto.
 
 Theorem tie_post_init : forall id ext, gen_post_init ext id = mk_arbid id ext.
-Proof.
-  intros. unfold gen_post_init, mk_arbid, extended_id_mask, standard_id_mask.
-  change (2 ^ 29 - 1) with 536870911. change (2 ^ 11 - 1) with 2047.
-  destruct ext; cbn [negb]; repeat (case_if; cbn [negb] in * ); try reflexivity; try discriminate.
-Qed.
+Proof. intros id ext. destruct ext; tie. Qed.
 
 Theorem tie_getters : forall id ext,
   gen_j1939_source ext id = j1939_source (id, ext) /\
@@ -16,47 +27,28 @@ Theorem tie_getters : forall id ext,
   gen_j1939_edp ext id = j1939_edp (id, ext) /\
   gen_j1939_priority ext id = j1939_priority (id, ext) /\
   gen_j1939_pdu_format ext id = j1939_pdu_format (id, ext).
-Proof.
-  intros. unfold gen_j1939_pdu_format, gen_j1939_source, gen_j1939_ps, gen_j1939_pf, gen_j1939_dp, gen_j1939_edp, gen_j1939_priority,
-    j1939_pdu_format, j1939_source, j1939_ps, j1939_pf, j1939_dp, j1939_edp, j1939_priority, guard_ext.
-  destruct ext; cbn [negb fst snd]; repeat split; reflexivity.
-Qed.
+Proof. intros id ext. destruct ext; repeat split; tie. Qed.
 
 Theorem tie_pgn : forall id ext, gen_pgn ext id = pgn (id, ext).
-Proof.
-  intros. unfold gen_pgn, gen_j1939_pdu_format, gen_j1939_ps, gen_j1939_pf, gen_j1939_dp, gen_j1939_edp, pgn.
-  destruct ext; cbn [negb fst snd]; [|reflexivity].
-  destruct (Z.land (Z.shiftr id 16) 255 <? 240) eqn:H;
-    [change (1 =? 2) with false | change (2 =? 2) with true]; cbv beta iota; f_equal; lia.
-Qed.
+Proof. intros id ext. destruct ext; tie. Qed.
+
+Theorem tie_destination : forall id ext, gen_j1939_destination ext id = j1939_destination (id, ext).
+Proof. intros id ext. destruct ext; tie. Qed.
 
 Theorem tie_setters : forall id ext v,
   gen_set_pgn ext id v = Some (set_pgn (id, ext) v) /\
   gen_set_source ext id v = Some (set_source (id, ext) v) /\
   gen_set_priority ext id v = Some (set_priority (id, ext) v).
-Proof. intros. unfold gen_set_pgn, gen_set_source, gen_set_priority, set_pgn, set_source, set_priority. cbn [fst snd]. repeat split; reflexivity. Qed.
+Proof. intros id ext v. repeat split; tie. Qed.
 
 Theorem tie_compound : forall id ext i p,
   gen_to_compound_integer ext id = Some (to_compound_integer (id, ext)) /\
   gen_from_compound_integer i = from_compound_integer i /\
   gen_from_pgn p = from_pgn p.
-Proof.
-  intros. unfold gen_to_compound_integer, gen_from_compound_integer, gen_from_pgn, to_compound_integer, from_compound_integer, from_pgn,
-    compound_extended_mask, extended_id_mask.
-  change (2 ^ 31) with 2147483648. change (2 ^ 29 - 1) with 536870911. cbn [fst snd].
-  repeat split; try (destruct ext; reflexivity); rewrite tie_post_init; reflexivity.
-Qed.
+Proof. intros id ext i p. repeat split; [destruct ext; tie | tie | tie]. Qed.
 Print Assumptions tie_post_init.
 Print Assumptions tie_getters.
 Print Assumptions tie_pgn.
+Print Assumptions tie_destination.
 Print Assumptions tie_setters.
 Print Assumptions tie_compound.
-
-Theorem tie_destination : forall id ext, gen_j1939_destination ext id = j1939_destination (id, ext).
-Proof.
-  intros. unfold gen_j1939_destination, gen_j1939_pdu_format, gen_j1939_ps, gen_j1939_pf, j1939_destination.
-  destruct ext; cbn [negb fst snd]; [|reflexivity].
-  destruct (Z.land (Z.shiftr id 16) 255 <? 240) eqn:H;
-    [change (1 =? 1) with true | change (2 =? 1) with false]; cbv beta iota zeta; reflexivity.
-Qed.
-Print Assumptions tie_destination.
